@@ -39,6 +39,19 @@ def gen_crate(udir, bdir, repo, meta, log, functions):
         text = text.replace('@REPO@', repo)
         out = []
         for ln in text.split('\n'):
+            mi = re.match(r'\s*//@include_file\s+(\S+)', ln)
+            if mi:
+                # the repository file, verbatim
+                rel = mi.group(1)
+                raw = open(os.path.join(repo, rel)).read()
+                out.append(raw)
+                log.append(dict(rule='copy', before=rel, after='copied verbatim (sha256 %s)' % hashlib.sha256(raw.encode()).hexdigest()[:16], where=fn))
+                continue
+            ma = re.match(r'\s*//@append\s+(\S+)', ln)
+            if ma:
+                out.append(open(os.path.join(udir, ma.group(1))).read())
+                log.append(dict(rule='append', before='', after='harness module %s appended as a child module' % ma.group(1), where=fn))
+                continue
             mm = re.match(r'\s*//@extract\s+(\S+)\s+(\S+)(.*)$', ln)
             if not mm:
                 out.append(ln)
@@ -173,13 +186,16 @@ def concrete_playback(bdir, build, harness, timeout=1800):
 def native_replay(bdir, build, harness, playback):
     """append the generated unit test to the crate and run it natively with `cargo kani playback`:
     the harness body executes on the real code with the concrete values; a failing assert confirms."""
-    lib = os.path.join(bdir, 'src', 'lib.rs')
+    marker = '// @PLAYBACK@'
+    lib = None
+    for fn in sorted(os.listdir(os.path.join(bdir, 'src'))):
+        if marker in open(os.path.join(bdir, 'src', fn)).read():
+            lib = os.path.join(bdir, 'src', fn)
+    if lib is None:
+        return dict(ran=False, reason='no playback marker in the harness crate')
     src = open(lib).read()
     tname = re.search(r'fn (kani_concrete_playback_\w+)', playback['test']).group(1)
-    # the test must live inside the `proofs` module to see the harness fn
-    marker = '// @PLAYBACK@'
-    if marker not in src:
-        return dict(ran=False, reason='no playback marker in lib.rs')
+    # the test must live inside the harness module to see the harness fn
     new = src.replace(marker, playback['test'] + '\n' + marker)
     open(lib, 'w').write(new)
     try:
